@@ -5,6 +5,7 @@ package st
 
 import (
 	"encoding/json"
+	"fmt"
 	"sort"
 )
 
@@ -295,4 +296,45 @@ func DecodedFieldMayChange(data []byte) string {
 	var in Inbox
 	_ = json.Unmarshal(data, &in)
 	return in.Doc
+}
+
+// --- the reflect package cannot set unexported fields: they are kept across a decoder unless their
+// address is handed out ---
+
+type Holder struct {
+	In    *Inbox
+	limit int
+	quota int
+}
+
+// FillKeepsPrivate: the decoder may change h.In.Doc, not h.limit.
+func (h *Holder) FillKeepsPrivate(data []byte) int {
+	_ = json.Unmarshal(data, h.In)
+	return h.limit
+}
+
+// FillMayChangeDoc: the exported field of the decoded struct is not kept.
+func (h *Holder) FillMayChangeDoc(data []byte) string {
+	_ = json.Unmarshal(data, h.In)
+	return h.In.Doc
+}
+
+// FillQuotaByAddress: an unexported field whose address goes to the decoder is not kept.
+func (h *Holder) FillQuotaByAddress(data []byte) int {
+	_ = json.Unmarshal(data, &h.quota)
+	return h.quota
+}
+
+func (h *Holder) bump() { h.limit++ }
+
+// ReadsAfterBump: the first read of h.limit in the function comes after the call that changes it.
+func (h *Holder) ReadsAfterBump() int {
+	h.bump()
+	return h.limit
+}
+
+// QuotaByForeignAddress: the address of an unexported field goes to code of another package.
+func (h *Holder) QuotaByForeignAddress(s string) int {
+	_, _ = fmt.Sscan(s, &h.quota)
+	return h.quota
 }
